@@ -86,13 +86,26 @@ func ZZH_C15_closed_stays_closed() {
 		return s.Status
 	}
 	steps := 1 + zz.Choice("steps", 3)
+	electorGone := false
 	for k := 0; k < steps; k++ {
 		var before [2]*Proposal
 		for i, id := range ids {
 			before[i], _ = zzProposalOf(w, id)
 		}
 		svcBefore := svcStatus()
-		switch zz.Choice("op", 2) {
+		switch zz.Choice("op", 3) {
+		case 2:
+			// an elector leaves office while the proposals are open or paused (once): an approved freeze
+			// concluded through the real RoleManager.Manage, which re-counts every proposal the index lists
+			if electorGone {
+				continue
+			}
+			electorGone = true
+			who := zzAdminIDs[nAdmins-1]
+			w.putObj(zzRoleAddr, RoleKey(who), Role{ID: who, RoleType: GovernanceAdmin, Weight: 1, Status: governance.GovernanceFreezing})
+			_, err := zzTx(w, cs[zzRoleAddr], zzRoleAddr, zzGovAddr, "Manage",
+				[]*pb.Arg{pb.String(string(governance.EventFreeze)), pb.String(string(APPROVED)), pb.String(string(governance.GovernanceAvailable)), pb.String(who), pb.Bytes(nil)})
+			zz.Assert("C15.lock.electorate-change-concludes", err == nil)
 		case 0:
 			which := zz.Choice("withdraw", 2)
 			_, err := zzTx(w, cs[zzGovAddr], zzGovAddr, owners[which], "WithdrawProposal", []*pb.Arg{pb.String(ids[which]), pb.String("changed my mind")})
@@ -106,7 +119,8 @@ func ZZH_C15_closed_stays_closed() {
 			zz.Cover("C15.lock.voted", err == nil)
 			// every admin is an elector of both proposals: a first vote on a proposal being voted on counts
 			// (in particular the vote that concludes it takes effect), any other vote is refused
-			zz.Assert("C15.lock.vote-accepted-iff-open-and-first", (err == nil) == (before[which].Status == PROPOSED && !voted))
+			voterGone := electorGone && voter == zzAdminIDs[nAdmins-1] // an unavailable admin's vote is refused
+			zz.Assert("C15.lock.vote-accepted-iff-open-and-first", (err == nil) == (before[which].Status == PROPOSED && !voted && !voterGone))
 		}
 		bothClosedBefore := true
 		for i, id := range ids {
@@ -148,6 +162,9 @@ func ZZH_C15_closed_stays_closed() {
 		zzStatusIndexAgrees(w, ids)
 	}
 	// an elector leaves office
+	if electorGone {
+		return
+	}
 	var before [2]*Proposal
 	for i, id := range ids {
 		before[i], _ = zzProposalOf(w, id)
